@@ -208,7 +208,7 @@ pub fn run(g: &mut Global) {
     g.rule = "exhaustive: scalar sequences over {-1e12,-1,0,1e-6,1,1e12} for SD, MAD, the (MIN,MAX) pair, SMA, WMA, EMA, ATR, MACD, BB (multipliers 0 and 2), KC with periods 1..=5 and TRUE_RANGE; random: finite streams of any sign engineered for cancellation (blocks of +-huge values followed by flat stretches of small ones, multi-regime streams), bars with low <= high and close anywhere, periods to 512, multipliers >= 0 from {0,1e-9,1,2,3,1e3,1e6} and U(0,10). Oracle: invariants after every input — SD, MAD, TR, ATR >= 0 and not NaN, Minimum <= Maximum (no slack); lower <= average <= upper, CE long <= window max(high) and short >= window min(low), histogram = line - signal, SMA/WMA inside the window hull, EMA inside the history hull (slack tau(t)*M as the property allows; the count holding with no slack is reported). Non-trivial = a drop in magnitude of >= 6 decades inside one window span, or multiplier 0 or >= 1e3; distinct by hash of (kind, parameters, path, inputs).".into();
     g.assumptions = vec!["multipliers are finite and >= 0".into(), "|x| <= 1e12".into()];
     let cfgs = enum_cfgs();
-    let d = g.tier.pick(6usize, 8usize);
+    let d = g.tier.pick(6usize, 9usize);
     let per = ipow(6, d);
     g.exhaustive(
         "enum",
@@ -220,7 +220,7 @@ pub fn run(g: &mut Global) {
         },
         &check,
     );
-    g.random("random", g.tier.pick(60000, 300000), &|| strategy(1, 300), &check);
+    g.random("random", g.tier.pick(60000, 3000000), &|| strategy(1, 300), &check);
     if g.tier == Tier::Thorough {
         g.random("long", 800, &|| strategy(3000, 8000), &check);
     }
